@@ -1,7 +1,7 @@
 #!/usr/bin/env python3
 """seedeval — confirm a seeded breaking change and measure which checks catch it.
 
-  tools/seedeval.py <candidate-dir> <seed-id> [--props C01,C02,…] [--no-suite]
+  tools/seedeval.py <candidate-dir> <seed-id> [--props C01,C02,…] [--no-suite] [--no-checks: confirm and store only; measure with tools/seedmatrix.py]
 
 <candidate-dir> holds patch.diff, demo_test.go (first line: `// place in: <pkg dir>/`), meta.json (from the sub-agent).
 Steps:
@@ -30,6 +30,8 @@ def main():
             props = sys.argv[3 + i + 1].split(",")
         if a == "--no-suite":
             suite = False
+        if a == "--no-checks":
+            props = []
     patch = os.path.join(cand, "patch.diff")
     demo = os.path.join(cand, "demo_test.go")
     meta = json.load(open(os.path.join(cand, "meta.json"))) if os.path.exists(os.path.join(cand, "meta.json")) else {}
@@ -78,8 +80,10 @@ def main():
     res["confirmed"] = bool(confirmed)
     # run the checks against /repo with the patch applied
     det = {}
-    rc, out = sh(["git", "-C", "/repo", "apply", os.path.abspath(patch)])
-    if rc != 0:
+    rc, out = (0, "") if not props else sh(["git", "-C", "/repo", "apply", os.path.abspath(patch)])
+    if not props:
+        pass
+    elif rc != 0:
         res["error"] = "patch does not apply to /repo: " + out[-300:]
     else:
         try:
